@@ -205,6 +205,11 @@ class SumOperator(LinearOperator):
         if from_inverse:
             raise NotImplementedError(
                 "cannot draw from inverse of this operator")
+        from .simple_linear_operators import NullOperator
+        if any(neg and not isinstance(op, NullOperator) for op, neg in zip(self._ops, self._neg)):
+            # a difference of covariances is not the covariance of a sum of independent draws
+            raise NotImplementedError(
+                "cannot draw from a sum with subtracted terms")
         res = None
         for op in self._ops:
             from .simple_linear_operators import NullOperator
